@@ -188,7 +188,7 @@ func c01Instance(r *proto.Rng, base, tmpl string) string {
 		if full[i] == '{' {
 			j := strings.IndexByte(full[i:], '}')
 			if j > 0 {
-				sb.WriteString(r.Pick("1", "42", "kitty", "a%2Fb", "50%25", "%zz", ":", "*", "%23", ";", "a=b", "%C3%A9", ".", "..", "", "x.json", "a-b", "a--b", "mine", "a:b"))
+				sb.WriteString(r.Pick("1", "42", "kitty", "a%2Fb", "50%25", "%zz", ":", "*", "%23", ";", "a=b", "%C3%A9", ".", "..", "", "x.json", "a-b", "a--b", "mine", "a:b", "a+b", "+1", "%2B", "a%20b", "%41", "%7Bx%7D", "a,b", "@", "$", "&", "!", "(x)", "'", "~"))
 				i += j
 				continue
 			}
